@@ -236,15 +236,19 @@ ADDENDA = {
     "C04": " Also (R-OWNS): constructor and reset_values store a fresh array, so no write that bypasses the object's invalidation reaches its values.",
     "C08": " Also: a record given as a list reaches array routines before any `+` / `*` (list + list concatenates); R-OWNS as in C04; a running sum of adjacent pair sums times h/2 is typed as the trapezoid rule.",
     "C09": " Also: integer-typed records (no real partial sum lands in a buffer that inherits the integer dtype); the per-second running total of CAVdp is recorded after the window's contribution is added.",
-    "C10": " Also: the index array of the crossing mask is read at [0] and [-1] only; a bisection (np.searchsorted) applied to a caller-supplied measure that nothing makes ascending is a violated library precondition.",
-    "C11": " Also: the plateau cleaner keeps exactly the samples whose exact difference to the predecessor is non-zero (no edit of the differences before the test, no tolerance).",
-    "C12": " Also: the exact plateau-cleaner rule of C11 (the switched peaks are chosen among its output).",
+    "C10": " Also: the index array of the crossing mask is read at [0] and [-1] only; a bisection (np.searchsorted) applied to a caller-supplied measure that nothing makes ascending is a violated library precondition. The deprecated AccSignal.generate_duration_stats is analysed as a second implementation of the bracketed durations (strict exceedance, thresholds 0.01/0.05/0.10 g, (last - first) of one selection, forwarding to calc_sig_dur_vals); crossings located by np.searchsorted use side='right' for the lower and 'left' for the upper bound; the default measure searched has one entry per sample; R-LIBNS for the anchored functions (F17).",
+    "C11": " Also: the plateau cleaner keeps exactly the samples whose exact difference to the predecessor is non-zero (no edit of the differences before the test, no tolerance). The turning test pairs adjacent differences (slices [1:] and [:-1] of one array); the cycle counter's origin node and its numbers (an arithmetic progression, with located wrong shapes) are read off the piece / progression domains.",
+    "C12": " Also: the exact plateau-cleaner rule of C11 (the switched peaks are chosen among its output). A literal result is returned only when the index set is empty (decided with keep_adj_zeros=True).",
     "C13": " Also: the exact plateau-cleaner rule of C11; a count of peaks up to a sample read with np.searchsorted(peaks, arange(n)) uses side='right'.",
-    "C07": " Also: literal positions other than [0] / [-1] on the index array of the mask and near misses of the last-True idiom (len - k - argmax(reversed), k != 1) are refuted; the direct form may delegate its window to the matrix form.",
-    "C17": " Also (R-BP-LEN alignment): the offset at which the record is embedded in the padded buffer (slice store, np.concatenate, np.pad) equals the offset at which the filtered buffer is cropped -- compared as symbolic integers and, when the expressions differ, constant-folded over sample lengths for a witness.",
+    "C07": " Also: literal positions other than [0] / [-1] on the index array of the mask and near misses of the last-True idiom (len - k - argmax(reversed), k != 1) are refuted; the direct form may delegate its window to the matrix form. The 0/0 replacement has located wrong instances (another constant stored through the == 0 mask, np.nan_to_num, sin(x)/x with no zero handling anywhere); targets handed to gen_smooth_fa_spectrum are the ones smoothed at and the ones kept on the object (state of the receiver at exit).",
+    "C06": " Also: the spacing rule reads the grid as arange(points) / (X * dt) or np.linspace(0, S, count, endpoint=False) and compares X (resp. 2 * count) with the FFT length as symbolic integers over sample lengths (F15); R-LIBNS for the anchored functions (F17).",
+    "C19": " Also: no entries of the summed wave are overwritten before it is integrated.",
+    "C17": " Also (R-BP-LEN alignment): the offset at which the record is embedded in the padded buffer (slice store, np.concatenate, np.pad) equals the offset at which the filtered buffer is cropped -- compared as symbolic integers and, when the expressions differ, constant-folded over sample lengths for a witness. The record's window [offset, offset + n) lies inside the padded buffer for every record length (constant-folded over sample lengths).",
 }
-POLICY = (" Verdict policy (DESIGN.md 9.19): a rule refutes only on a definite contradicting component or a located wrong construct; what is not derived, "
-          "or a construct the rule cannot locate (a redesign), is answered exit 2 (inconclusive), never exit 1 and never exit 0.")
+POLICY = (" Verdict policy (DESIGN.md 9.19, 9.23): a rule refutes only on a definite contradicting component or a located wrong construct; what is not derived, "
+          "or a construct the rule cannot locate (a redesign), is answered exit 2 (inconclusive), never exit 1 and never exit 0.  Every property also carries "
+          "R-API (positional order of the observed entry points), R-LIBNS (the NumPy/SciPy names referenced by the functions its analyses enter exist in the "
+          "installed library) and the generic [well-typed] / [broadcast] / [initialised] obligations of every analysis.")
 for i in ids:
     if i in CLAIMS:
         tech, text, note = CLAIMS[i]
